@@ -234,3 +234,49 @@ func vh_C07_response() {
 	verifAssert("C07.response.exact-values", vEqStrings(rw.Header()[http.CanonicalHeaderKey(h0.Name)], want))
 	verifReach("end")
 }
+
+// several configured headers with mixed preservation: each configured name is stripped (or
+// kept) according to its own setting, whatever the settings and position of the others
+// verif: unwind=8 strlen=8 also=C19 paths=200000
+func vh_C07_request_multi() {
+	nh := 2 + ndChoice("configured-headers", 2)
+	names := []string{"X-Forwarded-User", "X-Forwarded-Email", "X-Forwarded-Groups"}
+	claims := []string{"user", "email", "groups"}
+	var headers []options.Header
+	for i := 0; i < nh; i++ {
+		headers = append(headers, options.Header{Name: names[i], PreserveRequestValue: ndBool("preserve"),
+			Values: []options.HeaderValue{{ClaimSource: &options.ClaimSource{Claim: claims[i]}}}})
+	}
+	ctor, err := NewRequestHeaderInjector(headers)
+	verifAssert("C07.config-ok", err == nil)
+	if err != nil {
+		return
+	}
+	s := vC07Session()
+	rh := http.Header{}
+	clients := make([][]string, nh)
+	for i := 0; i < nh; i++ {
+		clients[i] = vC07Client("c")
+		if len(clients[i]) > 0 {
+			rh[names[i]] = clients[i]
+		}
+	}
+	scope := &middlewareapi.RequestScope{Session: s}
+	req := middlewareapi.AddRequestScope(&http.Request{Method: "GET", URL: &url.URL{Path: "/"}, Header: rh}, scope)
+	var seen http.Header
+	ctor(http.HandlerFunc(func(_ http.ResponseWriter, r *http.Request) { seen = r.Header })).ServeHTTP(&vRW{}, req)
+	verifAssert("C07.next-called", seen != nil)
+	if seen == nil {
+		return
+	}
+	for i := 0; i < nh; i++ {
+		var want []string
+		if headers[i].PreserveRequestValue {
+			want = append(want, clients[i]...)
+		}
+		want = append(want, vC07Render(s, vC07Value{claim: claims[i]})...)
+		want = vC07Flatten(want)
+		verifAssert("C07.multi.exact-values-per-header", vEqStrings(seen[names[i]], want))
+	}
+	verifReach("end")
+}
